@@ -382,6 +382,21 @@ where
             prog_ev::<F>(ev, lay, a, &steps);
         }
     }
+    // pairs solved from the divisor / multiplicand side (quotient / product on and beside a range bound for hostile divisors:
+    // exactly where a forwarder wired to a non-wrapping primitive, or a non-wrapping fast path below it, shows); separate PRNG stream
+    for (a, b) in div_bound_block(lay) {
+        bin_ev::<F>(ev, lay, 3, a, b);
+        bin_ev::<F>(ev, lay, 4, a, b);
+        misc_ev::<F>(ev, lay, "weu", 0, a, b);
+    }
+    for (a, b) in mul_bound_block(lay) {
+        bin_ev::<F>(ev, lay, 2, a, b);
+    }
+    let mut rng2 = args.rng_for(lay, 118);
+    for _ in 0..args.n / 4 {
+        let (a, b) = gen_div_pair(&mut rng2, lay);
+        bin_ev::<F>(ev, lay, 3, a, b);
+    }
 }
 
 fn main() {
